@@ -502,6 +502,59 @@ func emitEmit(cw *caseWriter, prop string, to []colDesc, mk func() interface{}, 
 	return out
 }
 
+// shortWriter takes at most `limit` bytes of what it is offered, and says so in one of the ways a writer may: a short
+// count with io.ErrShortWrite, a short count with another error, or — against the contract of io.Writer, as some
+// writers do — a short count and no error. It records every slice it was OFFERED.
+type shortWriter struct {
+	limit   int
+	how     int
+	offered [][]byte
+}
+
+func (w *shortWriter) Write(p []byte) (int, error) {
+	w.offered = append(w.offered, append([]byte{}, p...))
+	if len(p) <= w.limit {
+		return len(p), nil
+	}
+	switch w.how % 3 {
+	case 0:
+		return w.limit, io.ErrShortWrite
+	case 1:
+		return w.limit, nextFault()
+	default:
+		return w.limit, nil
+	}
+}
+
+// emitShortWrite: a row exported to a writer that takes only part of the line. The line reaches the writer as ONE
+// complete write whatever the writer does with it; a writer that took less is a failed export (reported), never a
+// reason to offer the rest in pieces.
+//
+//	shortw \t C01 \t <to> \t <Dyn value> \t <ext> \t calls=<n> ret=<ok|err> first=<hex of the first slice offered>
+func emitShortWrite(cw *caseWriter, to []colDesc, mk func() interface{}, limit, how int) {
+	w := &shortWriter{limit: limit, how: how}
+	var err error
+	v := mk()
+	s := dynStr(v)
+	ext := map[string]string{}
+	extForValue(v, ext)
+	pan := guard(func() { err = buildTemplate(to).GetExporter(w).Export(mk()) })
+	ret := "ok"
+	if err != nil {
+		ret = "err"
+	}
+	first := "-"
+	if len(w.offered) > 0 {
+		first = hxs(string(w.offered[0]))
+	}
+	impl := fmt.Sprintf("calls=%d ret=%s short=%v first=%s", len(w.offered), ret, len(w.offered) > 0 && len(w.offered[0]) > limit, first)
+	if pan != "" {
+		impl = "panic " + strings.ReplaceAll(strings.ReplaceAll(pan, "\t", " "), "\n", " ")
+	}
+	cw.count("shortw")
+	cw.emit(fmt.Sprintf("shortw %d %d %s %s", limit, how, descStr(to), s), true, "shortw", "C01", descStr(to), s, extStr(ext), impl)
+}
+
 // emitEmitSame: a row made by the rendering template ITSELF, changed afterwards (mk gets the template), and
 // exported by an exporter of that same template object.
 func emitEmitSame(cw *caseWriter, prop string, to []colDesc, mk func(t jsonline.Template) interface{}) string {
@@ -814,6 +867,16 @@ func genC01(cw *caseWriter, seed uint64, tier string) {
 				rr.Set("payload", mk())
 				return rr
 			}, true)
+		}
+	}
+	// writers that take only part of a line (a frame limit of 1, 24, 100 bytes …)
+	for k, limit := range []int{0, 1, 7, 24, 100, 4096} {
+		for how := 0; how < 2; how++ { // (a short count WITHOUT an error breaks the contract of io.Writer: the writer's fault, left out)
+			long := strings.Repeat("y", 50+k*997)
+			all := []colDesc{{name: "id", format: "auto", ty: "none"}, {name: "text", format: "auto", ty: "none"}, {name: "pad", format: "string", ty: "none"}}
+			emitShortWrite(cw, all, func() interface{} { return map[string]interface{}{"id": 1, "text": "a line that does not fit in one frame", "pad": long} }, limit, how)
+			emitShortWrite(cw, nil, func() interface{} { return map[string]interface{}{"only": long} }, limit, how)
+			emitShortWrite(cw, []colDesc{{name: "id", format: "numeric", ty: "int"}, {name: "text", format: "string", ty: "none"}}, func() interface{} { return map[string]interface{}{"id": 7, "text": long} }, limit, how)
 		}
 	}
 	// long lines around the buffer sizes a writer or reader might use (4 KiB bufio default, 64 KiB scanner
